@@ -30,7 +30,7 @@ COMPONENTS = {"real": "whole IPhreeqc library from /repo's working tree (ASan+UB
 ASSUMPTIONS = ["bitwise equality of table cells is demanded: both executions perform the same arithmetic in the same order (probed on the shipped examples)",
                "inputs whose whole-text reference run returns errors are skipped (counted), the property is about error-free inputs"]
 REACH_PROBES = ["compared_plans", "pieces", "rows_compared", "chunked_file_pieces", "eintr_fired", "benign_calls", "skipped_reference_error"]
-tiers = {"quick": dict(runs=3000, budget_s=150, workers=16), "thorough": dict(runs=60000, budget_s=1700, workers=16)}
+tiers = {"quick": dict(runs=6000, budget_s=150, workers=16), "thorough": dict(runs=60000, budget_s=1700, workers=16)}
 
 S1 = c07.S1
 ZZ_DEFS = ("SOLUTION_MASTER_SPECIES\n Zz Zz+ 0 Zz 90\nSOLUTION_SPECIES\n Zz+ = Zz+\n log_k 0\n Zz+ + Cl- = ZzCl\n log_k 1.5\nPHASES\n Zzite\n ZzCl = Zz+ + Cl-\n log_k -2\n"
